@@ -217,6 +217,60 @@ func runC14(r *Run) {
 			"the community pool is written with something other than DecCoins.Add(<stored pool>, <dec coins of amounts>): part of the redirected burn may not be credited to the pool")
 	})
 	r.Floor("R2", "stores into FeePool.CommunityPool", nPoolStores, 1)
+	// when the credit is assembled coin by coin, no coin of the burn is passed over
+	for _, h := range fn.Blocks {
+		if !isLoopHeader(h) {
+			continue
+		}
+		body := loopBody(h)
+		elems := map[ssa.Value]bool{}
+		for b := range body {
+			for _, in := range b.Instrs {
+				if ia, ok := in.(*ssa.IndexAddr); ok && backSlice(ia.X).HasParam("amounts") {
+					if _, isConst := ia.Index.(*ssa.Const); !isConst {
+						elems[ia] = true
+					}
+				}
+			}
+		}
+		if len(elems) == 0 {
+			continue
+		}
+		collects := func(in ssa.Instruction) bool {
+			c, ok := in.(*ssa.Call)
+			if !ok {
+				return false
+			}
+			isApp := false
+			if b, ok := c.Call.Value.(*ssa.Builtin); ok && b.Name() == "append" {
+				isApp = true
+			}
+			if ci := callInfo(c); ci.Name == "Add" && (ci.Recv == "DecCoins" || ci.Recv == "Coins") {
+				isApp = true
+			}
+			if !isApp {
+				return false
+			}
+			hit := false
+			backSlice(c.Call.Args...).Any(func(v ssa.Value) bool {
+				if elems[v] {
+					hit = true
+				}
+				return hit
+			})
+			return hit
+		}
+		var w []ssa.Instruction
+		for _, sc := range h.Succs {
+			if body[sc] && sc != h {
+				if p := (PathQuery{Fn: fn, StartBlock: sc, Block: collects, Target: func(in ssa.Instruction) bool { return in == h.Instrs[0] }}).Search(); p != nil {
+					w = p
+				}
+			}
+		}
+		r.Check(w == nil, "R2", fmt.Sprintf("%s#redirect-branch/every-coin-credited@%s", fnID(fn), h.Comment), P.Pos(instrPos(h.Instrs[0])), "every coin of the burn is added to the credit",
+			"the loop that assembles the community-pool credit can move on to the next coin without adding the current one: that coin is sent to the distribution account but never credited to the pool", P.witness(w)...)
+	}
 	if w := (PathQuery{Fn: fn, Block: isEmbedded, Target: isSuccessExit, DelEdge: edgeSet(eqEdges)}).Search(); w != nil {
 		r.Bad("R2", fnID(fn)+"#other-modules-burn", where, "for a module outside the redirected set a success exit is reachable without the embedded BurnCoins(moduleName, amounts)", P.witness(w)...)
 	} else {
